@@ -22,7 +22,7 @@ pub static DEF: PropDef = PropDef {
         "programs with a disconnect that carries an attached branch are excluded (commitment-time forms have no branch, see C01/F13)",
     ],
     shards: (32, 128),
-    budget_ms: (5_000, 20_000),
+    budget_ms: (60_000, 180_000),
 };
 
 fn ty_text(t: &RT) -> String {
